@@ -107,4 +107,17 @@ example :
     row.qEnd < row.qStart ∧ row.rStart < row.rEnd := by
   decide +kernel
 
+/-- the frame of a trimmed query: on '+' a label's coordinate is its distance from the FIRST label, on '−' its
+    distance from the LAST label (label numbers 1, 2, 3, … in file order on both strands) -/
+theorem C02_trimmed_frame (m : OMap) (p0 : Int) (ps : List Int) (hp : m.positions = p0 :: ps) (rev : Bool) (l : Lbl) :
+    l ∈ m.trim.labels rev ↔ ∃ k : Nat, ∃ p, m.positions[k]? = some p ∧ l.site = (k : Int) + 1 ∧
+      l.pos = (if rev then lastD p0 m.positions - p else p - p0) :=
+  Coma.Proofs.trim_labels_frame m p0 ps hp rev l
+
+/-- non-vacuity: a three-label molecule, trimmed, read on '−': coordinates 8000, 5000, 0 for labels 1, 2, 3
+    (listed from the last label), and 0, 3000, 8000 on '+' -/
+example : (OMap.trim ⟨7, 12000, [1000, 4000, 9000], 5⟩).labels true = [⟨3, 0⟩, ⟨2, 5000⟩, ⟨1, 8000⟩] ∧
+    (OMap.trim ⟨7, 12000, [1000, 4000, 9000], 5⟩).labels false = [⟨1, 0⟩, ⟨2, 3000⟩, ⟨3, 8000⟩] := by
+  decide +kernel
+
 end Coma.Props
